@@ -186,6 +186,9 @@ def run_case(case, ctx):
     if oc:
         prog['out_container'] = oc
         prog['features'] = sorted(set(prog['features']) | {'output-in-container'})
+    elif (case['prog_seed'] // 2) % 8 in (1, 5) and not case.get('special'):
+        # ... or returning a second tensor (an intermediate one) next to it
+        pitgen.add_second_output(prog, random.Random(case['prog_seed'] + 1))
     try:
         model, pit, _ = pitlib.convert_pit(prog, case['seed'], fold_bn=case['fold'])
     except Exception as e:
